@@ -50,4 +50,65 @@ theorem pag_roundtrip (s : PStore) (hI : Inv s) (cap cap0 : Int) (grow : Int →
   rw [this]
   exact merge_nil_perm (content s) hwf _ hperm
 
+/-- a message whose calls are a permutation of a canonical `int32` content satisfies the hypotheses of
+    `consumer_roundtrip` -/
+theorem perm_side (c : Content) (hc : c.WF) (h32 : ∀ p ∈ c, Lift.I32 p.1) (L : List (Int × Rat)) (hp : L.Perm c) :
+    Lift.BinsOK L ∧ ∀ j, Content.lookup L j = c.lookup j :=
+  ⟨fun p hp' => ⟨Rat.le_of_lt (hc.2 p (hp.mem_iff.1 hp')), fun _ => h32 p (hp.mem_iff.1 hp')⟩,
+   fun j => GenSparse.perm_lookup hp j⟩
+
+/-- **sparse → any kind.**  The regenerated sparse `ToProto` (any lawful order `o1`) of a store holding the canonical
+    `int32` content `c`, as floats, merged by the regenerated generic `MergeWithProto` (any lawful order `o2`) into a
+    new model store of kind `k`: a good store of kind `k` holding `c` clamped by the rule of `k` (`c` itself for the
+    sparse, dense and paginated kinds) -/
+theorem sparse_roundtrip {g : Gen.Sparse.SparseStore} {c : Content} (h : GenSparse.Rep g c)
+    (h32 : ∀ p ∈ c, Lift.I32 p.1) (o1 o2 : MapOrder) (h1 : o1.Lawful) (h2 : o2.Lawful) (k : StoreKind)
+    (hk : Lift.KindOK k) (fuel fuel2 : Nat) :
+    ∃ m, Gen.SparseProto.SparseStore.ToProto fuel o1 g = .ok m ∧ some (pbOfGo m) = storeToProto (.sp c) ∧
+      ∃ st', Gen.StoreProto.MergeWithProto fuel2 o2 (Store.new k) (toF64 m) = .ok st' ∧ Lift.Good st' ∧
+        st'.kind = k ∧ Lift.contentOf st' = (Lift.clampOfKind k).apply c := by
+  have h32' : ∀ p ∈ c, I32 p.1 := fun p hp => I32_of_Idx32 (h32 p hp)
+  obtain ⟨e1, e2⟩ := sparse_toProto_model h.repS fuel o1 h1 h32'
+  refine ⟨_, e1, e2, ?_⟩
+  obtain ⟨b1, b2⟩ := perm_side c h.2 h32 _ (msgCalls_sparseMsg o2 h2 c h.2.1 h32')
+  exact consumer_roundtrip k hk c h.2 o2 (sparseMsg c) b1 b2 fuel2
+
+/-- **paginated → any kind**: the same with the regenerated paginated `ToProto` as the producer -/
+theorem pag_roundtrip_any (s : PStore) (hI : Inv s) (cap : Int) (ord : MapOrder) (hl : ord.Lawful) (k : StoreKind)
+    (hk : Lift.KindOK k) (fuel fuel2 : Nat) (hf : forEachFuel s ≤ fuel) :
+    ∃ g1 m, BufferedPaginatedStore.ToProto fuel (toGen s cap) = .ok (g1, m) ∧
+      some (pbOfGo m) = storeToProto (.pg s) ∧
+      ∃ st', Gen.StoreProto.MergeWithProto fuel2 ord (Store.new k) (toF64 m) = .ok st' ∧ Lift.Good st' ∧
+        st'.kind = k ∧ Lift.contentOf st' = (Lift.clampOfKind k).apply (content s) := by
+  obtain ⟨hs, h32⟩ := pag_side_of_inv s hI
+  obtain ⟨m, h1, h2, h3⟩ := pag_toProto_model s cap fuel hf hs h32
+  refine ⟨_, m, h1, h3, ?_⟩
+  have hwf : (content s).WF := C04Pag.content_wf s hI
+  have hperm : (msgCalls ord m).Perm (content s) := by
+    rw [h2]
+    by_cases he : s.isEmpty = true
+    · rw [if_pos he, msgCalls_emptyMsg]
+      have : content s = [] := by
+        have := isEmpty_eq s hI
+        rw [he] at this
+        cases hc : content s with
+        | nil => rfl
+        | cons p r => rw [hc] at this; cases this
+      rw [this]
+    · rw [if_neg he]
+      exact msgCalls_sparseMsg ord hl s.binsList hs h32
+  obtain ⟨b1, b2⟩ := perm_side (content s) hwf (Lift.pag_keys32 s hI) _ hperm
+  exact consumer_roundtrip k hk (content s) hwf ord m b1 b2 fuel2
+
+/-- the bins of one message add up, whatever the order (`C09.mergeWithProto_adds` on the regenerated code): into a
+    good model store of any kind holding the clamped form of `E` -/
+theorem mergeWithProto_adds_gen (fuel : Nat) (ord : MapOrder) (hl : ord.Lawful) (st : Store) (hg : Lift.Good st)
+    (E : Content) (hE : E.WF) (hcE : Lift.contentOf st = st.clamp.apply E) (pb : GoPb.Store F64) (hwf : pb.WF)
+    (hfin : Finite pb) (hok : Lift.BinsOK (msgBins ord pb)) :
+    ∃ st' C, Gen.StoreProto.MergeWithProto fuel ord st pb = .ok st' ∧ Lift.Good st' ∧ st'.kind = st.kind ∧
+      Lift.contentOf st' = st.clamp.apply C ∧
+      ∀ j, C.lookup j = E.lookup j + Content.lookup (mapBins pb) j + Content.lookup (contigBins pb) j := by
+  obtain ⟨st', a1, a2, a3, a4⟩ := mergeWithProto_good_store fuel ord st hg E hE hcE pb hfin hok
+  exact ⟨st', _, a1, a2, a3, a4, fun j => lookup_merge_msgBins E ord hl pb hwf j⟩
+
 end DDS.Props.C09GenStore
